@@ -70,6 +70,9 @@ PROGRAMS = {
     # a private TOKEN key comes into being (C_UnwrapKey) while another thread logs out
     "Lu": [("open",), ("login", "P0"), ("unwrappriv",), ("close",)],
     # one thread makes a sensitive session key and has changes to it refused (rolled back); the other one tries to read it
+    # the two guards of the SO / read-only-session exclusion race each other
+    "Lz": [("open",), ("loginso", "SO"), ("sessinfo",), ("close",)],
+    "Ly": [("openro",), ("sessinfo",), ("close",)],
     "Ls": [("open",), ("mksens",), ("badset",), ("badset",), ("close",)],
     "Lg": [("open",), ("readsens",), ("readsens",), ("readsens",), ("close",)],
 }
@@ -79,7 +82,7 @@ PINS = {"P0": b"conc-user-pin", "P1": b"conc-pin-one", "P2": b"conc-pin-two2", "
 
 
 def shared_family(progs):
-    return any(len(c) > 0 and c[0] in ("login", "logout", "setpin", "createpriv", "unwrappriv", "mksens", "badset", "readsens") for pr in progs for c in pr)
+    return any(len(c) > 0 and c[0] in ("login", "logout", "setpin", "createpriv", "unwrappriv", "mksens", "badset", "readsens", "loginso", "openro") for pr in progs for c in pr)
 
 
 def conf(wd):
@@ -325,15 +328,21 @@ class Run(object):
                 ev = dict(e="Inv", t=t, c=c, o=o)
                 if c == "create":
                     ev["tok"] = call[2] == "tok"
-                if c in ("login", "setpin"):
+                if c in ("login", "setpin", "loginso"):
                     ev.update(o=0, a=call[1], b=call[2] if len(call) > 2 else "")
                 self.log(ev)
                 r = dict(e="Ret", t=t, c=c, o=o)
-                if c in ("login", "setpin"):
+                if c in ("login", "setpin", "loginso"):
                     r["o"] = 0
                 if c == "login":
                     rv = p.login(s, K.CKU_USER, PINS[call[1]])
                     r.update(rv=rvname(rv))
+                elif c == "loginso":
+                    rv = p.login(s, K.CKU_SO, SO if call[1] == "SO" else b"conc-wrong-so")
+                    r.update(rv=rvname(rv))
+                elif c == "openro":
+                    rv, s = p.open_session(self.slot, False)
+                    r.update(rv=rvname(rv), h=int(s))
                 elif c == "logout":
                     rv = p.logout(s)
                     r.update(rv=rvname(rv))
@@ -451,6 +460,8 @@ class Run(object):
                 self.log(r)
                 if not self.free and sc.mode == "calibrate":
                     sc.points[t].append(["R", 0])
+                if c in ("open", "openro") and r.get("rv") != "OK":
+                    break          # no session: the rest of the program cannot be run
         except Deadlock:
             self.log(dict(e="Stuck", t=t))
         except BaseException as e:
